@@ -8,6 +8,7 @@ CONSTANTS
   AllowDup = FALSE
   AllowNoPath = TRUE
   AllowStale = FALSE
+  WholeOnly = FALSE
   Sizes = {1}
   FixCommonSnapshot = TRUE
 INVARIANT TypeOK
